@@ -105,6 +105,42 @@ def _gen_elf(rng, d, k):
     return exe
 
 
+def _move_segment(path, rng):
+    """Give one PT_LOAD segment of an ELF64 little-endian file a new place at the end of the file (the bytes are copied, p_offset and the sh_offset of the
+    sections inside follow): program headers stay sorted by address, as ELF requires, while their file offsets are no longer ascending - legal, and what
+    post-link tools that append or rewrite segments produce."""
+    b = bytearray(open(path, "rb").read())
+    if b[:6] != b"\x7fELF\x02\x01":
+        return False
+    phoff, shoff = struct.unpack_from("<QQ", b, 0x20)
+    phentsize, phnum, shentsize, shnum = struct.unpack_from("<HHHH", b, 0x36)
+    loads = []
+    for i in range(phnum):
+        o = phoff + i * phentsize
+        ptype, _fl, poff, vaddr, _pa, filesz, _ms, align = struct.unpack_from("<IIQQQQQQ", b, o)
+        if ptype == 1 and filesz > 0:
+            loads.append((o, poff, vaddr, filesz, align))
+    if len(loads) < 2:
+        return False
+    o, poff, vaddr, filesz, align = loads[rng.below(len(loads) - 1)]           # not the last one: a later segment then lies earlier in the file
+    align = max(align, 1)
+    new = len(b)
+    new += (vaddr - new) % align if align > 1 else 0
+    data = bytes(b[poff:poff + filesz])
+    b += b"\0" * (new - len(b)) + data
+    struct.pack_into("<Q", b, o + 8, new)
+    for i in range(shnum):
+        so = shoff + i * shentsize
+        if so + 0x28 > len(b):
+            break
+        shtype, = struct.unpack_from("<I", b, so + 4)
+        sh_off, sh_size = struct.unpack_from("<QQ", b, so + 0x18)
+        if shtype not in (0, 8) and poff <= sh_off and sh_off + sh_size <= poff + filesz:
+            struct.pack_into("<Q", b, so + 0x18, sh_off - poff + new)
+    open(path, "wb").write(bytes(b))
+    return True
+
+
 def _gen_jitdump(rng, path):
     out = struct.pack("<IIIIIIQQ", 0x4A695444, 1, 40, 62, 0, 1234, 1000, 0)
     entries = []
@@ -186,6 +222,8 @@ def _pick_lookups(rng, dump, n=40):
         for (sv, fo, sz) in ranges[:6]:
             for off in (fo, max(fo - 1, 0), fo + max(sz, 1) - 1, fo + sz):
                 lookups.append(("o", off))
+                if fo <= off < fo + sz and 0 <= sv + (off - fo) - base < 2**32:
+                    lookups.append(("r", sv + (off - fo) - base))          # the same byte by its relative address: the two forms must be answered alike
     # window of entries: every entry within [min-?, max+?] plus two neighbours on each side
     rel = [a for f, a in [(f, (v if f == "r" else None)) for f, v in lookups] if a is not None]
     return lookups, ents
@@ -215,6 +253,8 @@ def evaluate(cases):
                 sub = os.path.join(d, "e%d" % i)
                 os.makedirs(sub)
                 p = _gen_elf(rng, sub, i)
+                if p and rng.chance(1, 3):
+                    _move_segment(p, rng)
                 paths.append(p)
                 truths.append(None)
             elif kind == "jitdump":
